@@ -15,8 +15,8 @@ EXPLANATION = (
     "Typestate rule over every function of the package: (R1) every event that gives a node of a non-fresh "
     "diagram an out-edge (dag.add_edge, or a call of a primitive wrapper such as _ensure_node/_ensure_edge "
     "with a non-None parent) lies only on paths -- within one iteration when the parent is loop-dependent -- "
-    "that also store None (or the justified empty list) into attractor_seeds AND attractor_sets of the same "
-    "node handle, unless the path passes a test showing the node was already expanded; where the parent of "
+    "that also store None (or the justified empty list) into attractor_seeds, attractor_sets AND "
+    "attractor_candidates of the same node handle, unless the path passes a test showing the node was already expanded; where the parent of "
     "a growth event cannot be tied to a handle of the function, the obligation moves to every "
     "`expanded = True` store of that function. (R2) every computed value stored into an attractor_* field "
     "is the result of the candidate/seed/set computation called for the same (diagram, node). (R3) seeds "
@@ -26,7 +26,6 @@ EXPLANATION = (
 ASSUMPTIONS = [
     "attribute dictionaries of diagram nodes are reached only through node_data(), dag.nodes[...] or cast() of "
     "those (checked: any other access pattern to dag.nodes is reported by C04-T2)",
-    "after an empty-list mark of the seeds the candidate list is never consulted for seeds again",
     "exceptional exits are covered by C15, not here",
 ]
 
@@ -84,10 +83,10 @@ def r1(ck: Check, gm: GrowthModel) -> None:
                 if esc:
                     missing.append(f"{fld} (path reaches {esc})")
             # stale candidates would be re-validated against the new children (a fixed point inside a child
-            # becomes a seed of the parent): they must go too, unless the seeds are replaced by the empty mark,
-            # after which candidates are never consulted for seeds again
-            cuts = [e.cfgn for e in handle_stores(fm, hk, "attractor_candidates") if is_none(e.value)] + \
-                   [e.cfgn for e in handle_stores(fm, hk, "attractor_seeds") if is_empty_list(e.value)] + exempt
+            # becomes a seed of the parent), and they are themselves reported (node_attractor_candidates without
+            # recomputation, expanded_attractor_candidates): they must go too, also where the seeds are replaced
+            # by the empty mark
+            cuts = [e.cfgn for e in handle_stores(fm, hk, "attractor_candidates") if is_reset_value(e.value)] + exempt
             esc = escapes(fm, g.cfgn, cuts, loop)
             if esc:
                 missing.append(f"attractor_candidates (path reaches {esc})")
